@@ -59,8 +59,8 @@ func runC03(tb ev.TB, p sim.Prog) ev.Result {
 			tb.Fatalf("len(Values()) = %d but Len() = %d", len(vals), r.Log.Len())
 		}
 		sv := world.SliceHashes(r.Log.ToSnapshot().Values)
-		if !world.EqualStrings(sv, vals) {
-			tb.Fatalf("ToSnapshot().Values differs from Values()")
+		if !world.EqualStrings(world.SortedCopy(sv), world.SortedCopy(vals)) {
+			tb.Fatalf("ToSnapshot().Values holds other entries than Values()")
 		}
 		// calling Values twice gives the same answer (it depends only on the set)
 		if again := world.Hashes(r.Log.Values()); !world.EqualStrings(again, vals) {
